@@ -285,11 +285,15 @@ def projector (K : Nat) (basis : Nat → Nat → Nat → α) : Nat → Nat → N
 def mixPT [Sub α] [One α] (p : α) (f : Nat → Nat → Nat → Nat → α) : Nat → Nat → Nat → Nat → α :=
   fun a b a' b' => p * f a b a' b' + (1 - p) * ptB f a b a' b'
 
-/-- `⟨u⊗v| M |u⊗v⟩` for real `u`, `v` -/
-def quadForm (dA dB : Nat) (f : Nat → Nat → Nat → Nat → α) (u v : Nat → α) : α :=
+/-- `xᵀ M x` for a real vector `x` indexed by pairs `(a,b)` (the Rayleigh numerator the eigen-solver bounds) -/
+def quad4 (dA dB : Nat) (f : Nat → Nat → Nat → Nat → α) (x : Nat → Nat → α) : α :=
   ((List.range dA).map fun a => ((List.range dB).map fun b =>
     ((List.range dA).map fun a' => ((List.range dB).map fun b' =>
-      u a * v b * f a b a' b' * (u a' * v b')).foldr (· + ·) 0).foldr (· + ·) 0).foldr (· + ·) 0).foldr (· + ·) 0
+      x a b * f a b a' b' * x a' b').foldr (· + ·) 0).foldr (· + ·) 0).foldr (· + ·) 0).foldr (· + ·) 0
+
+/-- `⟨u⊗v| M |u⊗v⟩` for real `u`, `v` -/
+def quadForm (dA dB : Nat) (f : Nat → Nat → Nat → Nat → α) (u v : Nat → α) : α :=
+  quad4 dA dB f fun a b => u a * v b
 
 end npt
 
